@@ -534,6 +534,8 @@ class Interp(object):
         if isinstance(base, Obj):
             if attr in base.fields:
                 return base.fields[attr]
+            if attr == '__class__':
+                return ClassRef(base.cls)
             if self.repo.has_cls(base.cls):
                 fi = self.repo.method(base.cls, attr, required=False)
                 if fi is not None:
@@ -1112,6 +1114,8 @@ class Interp(object):
         if name == 'type':
             if isinstance(a0, Obj):
                 return ClassRef(a0.cls)
+            if a0 is None or isinstance(a0, (bool, int, float, str, bytes, list, tuple, dict)):
+                return ClassRef(type(a0).__name__)
             return Top('type')
         if name == 'hasattr':
             if isinstance(a0, Obj) and isinstance(args[1], str):
@@ -1158,6 +1162,8 @@ class Interp(object):
                 return list(a0) if name == 'list' else tuple(a0)
             if not args:
                 return [] if name == 'list' else ()
+            if isinstance(a0, Sym):
+                return Sym(name, a0)
             return Top(name)
         if name == 'dict':
             if not args and not kwargs:
